@@ -323,6 +323,7 @@ theorem freed_or_rekeyed_step (s : State) (m : Move) (h : Inv10 s) (ha : assumed
     | deleteApp kind ns app => exact absurd rfl same
     | setPool name size => exfalso; apply same; dsimp only [step]; split <;> rfl
     | listerSync pods apps => exfalso; apply same; dsimp only [step]; split <;> split <;> rfl
+    | fipSync => exact absurd rfl same
     | dropEvent i => exfalso; apply same; dsimp only [step]; split <;> rfl
     | filter ns name nodes ch fault =>
       have hc0 : Coherent (withFaults s fault 0) := coherent_of_eq h.core.coh rfl rfl rfl rfl
